@@ -382,6 +382,26 @@ def run_check(P, tier, seed, replay=None):
         proof_broken = "unexpected axioms under property theorems: " + ", ".join(extra_ax)
         discharged = 0
 
+    # 1b. thorough tier: independent re-check of the compiled property file (and everything it depends on) with coqchk
+    coqchk_report = None
+    if tier == "thorough" and build["ok"] and not os.environ.get("VERIF_NO_COQCHK"):
+        mod = "KD." + P.COQ_FILES[-1][:-2].replace("/", ".")
+        rc, out, err, wall = sh(["timeout", "1500", "coqchk", "-o", "-Q", ".", "KD", mod], 1560, cwd=COQ)
+        txt = out + err
+        ok = rc == 0 and "Modules were successfully checked" in txt
+        m = re.search(r"\* Axioms:(.*?)\n\s*\n\* Constants", txt, re.S)
+        ax = re.findall(r"^\s+([A-Za-z_][A-Za-z0-9_.']*)\s*$", m.group(1), re.M) if m else []
+        unsafe = [k for k in ("type-in-type", "unsafe (co)fixpoints", "positivity is assumed")
+                  if not re.search(re.escape(k) + r":\s*<none>", txt)]
+        coqchk_report = {"module": mod, "ok": ok, "axioms": ax, "wall_s": round(wall, 1), "unsafe": unsafe if ok else None}
+        bad_ax = [a for a in ax if a.split(".")[-1] not in allowed and a not in allowed]
+        if not ok:
+            proof_broken = f"coqchk failed on {mod} (rc={rc}): " + txt[-1500:]
+            discharged = 0
+        elif bad_ax or unsafe:
+            proof_broken = f"coqchk reports axioms/unsafe features under {mod}: {bad_ax} {unsafe}"
+            discharged = 0
+
     # 2. cases: corpus first, then generated
     cases = []
     corpus_dir = os.path.join(VERIF, "corpus", prop_id)
@@ -538,6 +558,8 @@ def run_check(P, tier, seed, replay=None):
         "input_distribution": dict(sorted(hist.items())),
         "build_wall_s": round(build["wall_s"], 1),
     }
+    if coqchk_report:
+        coverage["coqchk"] = coqchk_report
     write_evidence(prop_id, tier, seed, coverage, list(P.ASSUMPTIONS), time.time() - t0, violations)
     for ln in lines:
         print(ln)
